@@ -56,7 +56,7 @@ fn fmt_node(n: &Node, t0: std::time::Instant) -> String {
     format!("{}/{},{},{},{}", fmt_handle(h), opt_ns(lq, t0), opt_ns(lr, t0), opt_ns(ll, t0), rr)
 }
 
-fn fmt_table(t: &RoutingTable, t0: std::time::Instant) -> String {
+pub fn fmt_table(t: &RoutingTable, t0: std::time::Instant) -> String {
     let bs: Vec<String> = t
         .buckets()
         .map(|b| b.iter().map(|n| fmt_node(n, t0)).collect::<Vec<_>>().join(" "))
